@@ -24,6 +24,7 @@ fn main() {
     Some("replay") => replay_cmd(&args[2..]),
     Some("baseline") => baseline_cmd(&args[2..]),
     Some("digests") => digests_cmd(&args[2..]),
+    Some("w3-emit") => { node::install_silent_panic_hook(); let t = args[2].clone(); match hashseed::on_node_thread(1, move || w3::produce(&t)) { Ok(w3::Produced::File(b, _)) => { println!("{}", w3::hex(&b)); 0 } _ => { eprintln!("no file"); 1 } } }
     _ => {
       eprintln!("usage: mechsim check --property Cxx --tier quick|thorough [--seed N] | replay <file> | probe <file> | baseline w1 | digests --property Cxx --runs N");
       2
@@ -58,6 +59,12 @@ fn worker(args: &[String]) {
       let discover = flag(args, "--discover");
       let supported = if discover { std::sync::Arc::new(Default::default()) } else { w1::load_supported(&format!("{}/baselines/w1_supported.txt", VERIF)) };
       supervisor::worker_loop(|k| w1::worker_run(seed, k, profile, supported.clone(), &known, discover));
+    }
+    "W3" => {
+      let thorough = flag(args, "--thorough");
+      let corpus = std::sync::Arc::new(corpus::load());
+      let bb = arg(args, "--blackbox").map(|s| s.to_string());
+      supervisor::worker_loop(|k| w3::worker_run(seed, k, &corpus, thorough, bb.as_deref()));
     }
     w => { eprintln!("unknown world {}", w); std::process::exit(2); }
   }
@@ -108,6 +115,32 @@ fn check_cmd(args: &[String]) -> i32 {
         extra: json!({}),
       }
     }
+    "C07" => {
+      let corpus_len = corpus::load().len() as u64;
+      let mut wa: Vec<String> = vec!["worker".into(), "--world".into(), "W3".into(), "--seed".into(), seed.to_string()];
+      if thorough { wa.push("--thorough".into()); }
+      CheckSpec {
+        property: property.clone(), world: "W3".into(), tier: tier.clone(), seed, level: "fault_enumeration".into(),
+        rule: format!("W3 bytecode pipeline: producer node (real Interpreter: interpret + compile) -> storage medium owned by the simulator (byte vector; 1 run in 8 also through a real file and load_program_from_file) -> consumer node (fresh thread, other hash seed: ParsedProgram::from_bytes, decode_const_entries). Corpus: {} programs (every snippet harvested at run time from /repo/tests/interpreter.rs and tests/bytecode.rs plus an operator/kind/shape sampler); the first runs walk the corpus in order. Per emitted file: configuration 0/1 (loader accepts it, to_bytes(from_bytes(b)) == b, decoded header/constants/instructions/features/types equal the compiler's CompileCtx field by field) and then storage faults: truncation (t), single bit flips (b), bursts of 2-32 bits (u) must be rejected; zeroed/0xFF/misdirected sectors (z), appended/duplicated regions (a), random byte strings incl. real header prefixes (r), structure-aware single-field boundary values with the checksum recomputed (s) and random patches with the checksum recomputed (c) must never panic, hang or allocate more than 64 MiB + 64 x file length (counting allocator; hard cap turns it into a worker death attributed to the run). {} A run is non-trivial if a file was emitted and damaged files were fed; distinct = digest over program, fault sequence and loader outcomes.", corpus_len, if thorough { "Thorough tier: t and b are enumerated completely (every length, every bit) for every emitted file of the corpus; the other kinds are seeded samples." } else { "Quick tier: t and b are enumerated completely for the first 24 corpus programs; otherwise all kinds are seeded samples (150-400 per run)." }),
+        worker_args: wa,
+        runs: if thorough { corpus_len + 60_000 } else { corpus_len + 2_500 },
+        budget: Duration::from_secs(if thorough { 900 } else { 55 }),
+        chunk: 4,
+        evidence: base.join("evidence/C07.json"),
+        replays: base.join("replays/C07"),
+        known: base.join("known_findings.jsonl"),
+        components_real: vec!["mech-syntax parser".into(), "mech-interpreter (interpret, compile)".into(), "mech-core bytecode compiler (CompileCtx::compile, sections, constants)".into(), "mech-core loader (verify_crc_trailer_seek, load_program_from_reader, decode_instructions) and ParsedProgram::{from_bytes,to_bytes,decode_const_entries}".into(), "load_program_from_file on a real tmpfs file (1 run in 8)".into()],
+        components_stub: vec!["none of Mech is stubbed; simulated: storage medium between compiler and loader (byte vector with injected damage), hash seeds of producer and consumer, fault schedule".into()],
+        assumptions: vec![
+          "C07 names the loader and the constant decoder; run_program is never called on damaged or hostile files".into(),
+          "CRC-32 detects every burst of at most 32 bits, so t/b/u must be rejected outright; for the other kinds only panic/hang/allocation are judged".into(),
+          "hang is decided by the loops' own bounds plus the 120 s watchdog backstop".into(),
+        ],
+        expected_reach: vec!["fault:t".into(), "fault:b".into(), "fault:u".into(), "fault:z".into(), "fault:a".into(), "fault:r".into(), "fault:s".into(), "fault:c".into(), "reach:files-emitted".into(), "reach:loaded-through-real-file".into()],
+        exhaustive: false,
+        extra: json!({"corpus_programs": corpus_len}),
+      }
+    }
     p => { eprintln!("unknown property {}", p); return 2; }
   };
   if let Some(r) = runs_override { spec.runs = r; }
@@ -124,6 +157,7 @@ fn replay_cmd(args: &[String]) -> i32 {
   let text = match std::fs::read_to_string(path) { Ok(t) => t, Err(e) => { eprintln!("cannot read {}: {}", path, e); return 2; } };
   let j: J = match serde_json::from_str(&text) { Ok(j) => j, Err(e) => { eprintln!("bad replay file: {}", e); return 2; } };
   node::install_silent_panic_hook();
+  if flag(args, "--in-process") { supervisor::limit_address_space(16 << 30); alloc::set_hard_cap(2 << 30); }
   let want = j["signature"].as_str().or_else(|| j["violation"]["signature"].as_str()).unwrap_or("").to_string();
   if j["regenerate"].as_bool() == Some(true) {
     // crash replays: re-run (seed, run) through the generator in a fresh worker
@@ -146,6 +180,28 @@ fn replay_cmd(args: &[String]) -> i32 {
         Some(v) if want.is_empty() || v.signature == want => { println!("REPRODUCED {}", v.signature); 1 }
         Some(v) => { println!("different violation: {} (wanted {})", v.signature, want); 1 }
         None => { println!("not reproduced"); 0 }
+      }
+    }
+    Some("W3") => {
+      if flag(args, "--in-process") {
+        return match w3::replay_in_process(&j) {
+          Some(sig) => { println!("REPRODUCED {}", sig); 1 }
+          None => { println!("not reproduced"); 0 }
+        };
+      }
+      // feed in a child process under the address-space limit, so that an abort is observed, not suffered
+      let exe = std::env::current_exe().unwrap();
+      match std::process::Command::new(exe).arg("replay").arg(path).arg("--in-process").output() {
+        Ok(o) => {
+          let out = String::from_utf8_lossy(&o.stdout).to_string();
+          let err = String::from_utf8_lossy(&o.stderr).to_string();
+          print!("{}", out);
+          match o.status.code() {
+            Some(c @ (0 | 1)) => c,
+            _ => { println!("REPRODUCED host-aborted|process|{} ({} ; {})", if err.contains("ALLOC-REFUSED") { "allocation-refused" } else { "died" }, o.status, node::trunc(err.trim(), 200)); 1 }
+          }
+        }
+        Err(e) => { eprintln!("cannot spawn: {}", e); 2 }
       }
     }
     w => { eprintln!("replay: unknown world {:?}", w); 2 }
@@ -184,6 +240,7 @@ fn digests_cmd(args: &[String]) -> i32 {
   let jobs: usize = arg(args, "--jobs").and_then(|s| s.parse().ok()).unwrap_or(supervisor::default_jobs());
   let wargs: Vec<String> = match property.as_str() {
     "C04" | "C05" => vec!["worker".into(), "--world".into(), "W1".into(), "--profile".into(), property.clone(), "--seed".into(), seed.to_string()],
+    "C07" => vec!["worker".into(), "--world".into(), "W3".into(), "--seed".into(), seed.to_string()],
     p => { eprintln!("unknown property {}", p); return 2; }
   };
   let agg = match supervisor::run_batch(wargs, 0, runs, jobs, Duration::from_secs(3600), 8) { Ok(a) => a, Err(e) => { eprintln!("{}", e); return 2; } };
